@@ -112,7 +112,8 @@ def choi_from_unitary(unitary: np.ndarray) -> np.ndarray:
 
     """
     unitary = np.array(unitary)
-    return np.outer(unitary.flatten(), np.conj(unitary.flatten()))
+    vec = unitary.flatten(order="F")
+    return np.outer(vec, np.conj(vec))
 
 
 def _vec(mat: np.ndarray) -> np.ndarray:
